@@ -396,9 +396,19 @@ func domSliceOf[T any, S ~[]T](e dom[T], maxLen int) dom[S] {
 		}),
 		near: func(t *rapid.T, a S) (S, string) {
 			b := clone([]T(a))
-			k := rapid.IntRange(0, 9).Draw(t, "qmut")
+			k := rapid.IntRange(0, 11).Draw(t, "qmut")
 			switch {
-			case k == 0:
+			case k == 10:
+				// the same storage: a itself, a prefix view a[:p] or a suffix view a[p:] of its backing array
+				switch v := rapid.IntRange(0, 2).Draw(t, "view"); {
+				case v == 0 || len(a) == 0:
+					return a, "same-slice"
+				case v == 1:
+					return a[:rapid.IntRange(0, len(a)-1).Draw(t, "cut")], "prefix-view"
+				default:
+					return a[rapid.IntRange(0, len(a)-1).Draw(t, "from"):], "suffix-view"
+				}
+			case k == 0 || k == 11:
 				return S(b), "copy"
 			case k <= 2 || len(b) == 0:
 				n := rapid.IntRange(1, 2).Draw(t, "ext")
